@@ -1,2 +1,169 @@
-(* placeholder *)
+(* C06 — multiply-driven bits and combinational loops are rejected; legal designs are not.
+   Model: Model/Nir.v (emit_assign / emit_drivers / connect / emit_top_ports / Module._add_statement;
+   comb_edges_to of every cell and Netlist.check_comb_cycles).  Proofs: Proofs/NirP.v. *)
+From Coq Require Import ZArith List Bool Arith.
 From V.Model Require Import Nir.
+From V.Proofs Require Import NirP.
+Import ListNotations.
+
+(* ---------------------------------------------------------------- example netlists *)
+(* s (3 bits): s[1:3] = ~s[0:2], s[0] = input — bits of one signal feeding other bits of the same signal *)
+Definition g_shift : netlist :=
+  Netlist [CTop [(2, 1)]; COperator KNot 2 [[NL 3; NL 2]]]
+          [(3, NC 0 2); (2, NC 1 0); (1, NC 1 1)] [[NL 3; NL 2; NL 1]].
+(* the same wiring through a word-level operator (every output depends on every input) *)
+Definition g_shift_word : netlist :=
+  Netlist [CTop [(2, 1)]; COperator KOther 2 [[NL 3; NL 2]]]
+          [(3, NC 0 2); (2, NC 1 0); (1, NC 1 1)] [[NL 3; NL 2; NL 1]].
+(* a (2 bits): a = a[0] + 1 *)
+Definition g_cyc : netlist :=
+  Netlist [CTop []; COperator KOther 2 [[NL 2; NC 0 0]; [NC 0 1; NC 0 0]]]
+          [(2, NC 1 0); (1, NC 1 1)] [[NL 2; NL 1]].
+
+(* ---------------------------------------------------------------- cycles *)
+
+(* For ALL netlists g (any cells, connections, signals): a reported CombinationalCycle path is a real,
+   non-empty closed chain of comb edges (no false positive of the DFS). *)
+Theorem C06_dfs_sound : forall g p,
+  check_cycles g = VCycle p ->
+  exists x, chain g x p /\ p <> [] /\ last p x = x /\ reach g x x.
+Proof. exact dfs_sound. Qed.
+Print Assumptions C06_dfs_sound.
+Example C06_dfs_sound_ex : check_cycles g_cyc = VCycle [NL 2; NC 1 0]
+                           /\ check_cycles g_shift_word = VCycle [NL 2; NC 1 0].
+Proof. vm_compute. split; reflexivity. Qed.
+
+(* For ALL netlists g — including cells whose outputs the DFS merges into one node (extra_nets) —:
+   acceptance means that no net of the netlist reaches itself through >= 1 comb edge (no false negative).
+   Running out of fuel is a different verdict (VFuel), excluded for well-formed netlists by C06_dfs_fuel. *)
+Theorem C06_dfs_complete : forall g,
+  check_cycles g = VAccept -> forall n, In n (all_nets g) -> ~ reach g n n.
+Proof. exact dfs_complete. Qed.
+Print Assumptions C06_dfs_complete.
+Example C06_dfs_complete_ex : check_cycles g_shift = VAccept /\ wf_netlist g_shift = true.
+Proof. vm_compute. split; reflexivity. Qed.
+
+(* For ALL netlists whose edges stay inside the netlist: fuel = number of nets + 1 never runs out. *)
+Theorem C06_dfs_fuel : forall g, wf_netlist g = true -> check_cycles g <> VFuel.
+Proof. exact dfs_fuel. Qed.
+Print Assumptions C06_dfs_fuel.
+Example C06_dfs_fuel_ex : wf_netlist g_cyc = true /\ wf_netlist g_shift_word = true.
+Proof. vm_compute. split; reflexivity. Qed.
+
+(* For ALL well-formed netlists: a cycle through any net is rejected — but the faithful model can only
+   promise "CombinationalCycle OR the bare AssertionError of `assert traverse(net) is None`": *)
+Theorem C06_dfs_rejects_cycles : forall g n,
+  wf_netlist g = true -> In n (all_nets g) -> reach g n n ->
+  (exists p, check_cycles g = VCycle p) \/ check_cycles g = VAssert.
+Proof. exact dfs_rejects_cycles. Qed.
+Print Assumptions C06_dfs_rejects_cycles.
+
+(* "fails with a combinational-cycle error whenever a bit depends on itself" is FALSE of the faithful model:
+   m.d.comb += a.eq(a[1] + 1): the DFS enters the adder by output 0 and closes the cycle on its sibling
+   output 1, which is busy but never the `start` of any frame; the Cycle object reaches the top-level assert. *)
+Theorem C06_dfs_cycle_error_refuted :
+  wf_netlist g_assert = true /\ reach g_assert (NL 1) (NL 1) /\ In (NL 1) (all_nets g_assert)
+  /\ check_cycles g_assert = VAssert.
+Proof. exact dfs_cycle_error_refuted. Qed.
+Print Assumptions C06_dfs_cycle_error_refuted.
+
+(* For ALL per-bit cells (~ & | ^ Mux AssignmentList IOBuffer), bits and valuations: output bit `bit`
+   is a function of the nets in comb_edges c bit only — the modelled edge relation contains every input
+   bit that can influence the output bit, and for these cells nothing but position `bit` of each operand
+   (Slice / Cat are pure re-indexings of nets and create no cell).  So bits of one signal feeding other
+   bits of the same signal create no cycle in the model (C06_dfs_complete_ex: g_shift is accepted, while
+   the same wiring through a word-level operator, g_shift_word, is reported). *)
+Theorem C06_per_bit_precise : forall c bit v1 v2,
+  per_bit c = true -> (forall n, In n (comb_edges c bit) -> v1 n = v2 n) ->
+  cell_bit v1 c bit = cell_bit v2 c bit.
+Proof. exact per_bit_precise. Qed.
+Print Assumptions C06_per_bit_precise.
+Example C06_per_bit_precise_ex :
+  per_bit (COperator KXor 2 [[NL 1; NL 2]; [NL 3; NL 4]]) = true
+  /\ comb_edges (COperator KXor 2 [[NL 1; NL 2]; [NL 3; NL 4]]) 1 = [NL 2; NL 4]
+  /\ comb_edges (CAssign [NL 1; NL 2] [(NL 9, 1, [NL 5])]) 0 = [NL 1]
+  /\ comb_edges (CAssign [NL 1; NL 2] [(NL 9, 1, [NL 5])]) 1 = [NL 2; NL 9; NL 5].
+Proof. vm_compute. repeat split. Qed.
+
+(* ---------------------------------------------------------------- drivers *)
+
+(* For ALL well-formed targets t (any nesting of Slice / Part / Cat / array element / casts, any widths,
+   offsets, strides) and all signal bits: the bit ranges emit_assign records in the NetlistDriver for
+   `t.eq(...)` cover exactly the bits that t may address for SOME selector value (spec `addr`: slices exact;
+   part-select: every offset value below 2^len(offset) whose window starts inside the operand, clipped to it;
+   Cat: the part the position falls into; array element: any element). *)
+Theorem C06_emit_assign_spec : forall t s b, wf_tgt t = true ->
+  (covered (emit_assign t 0 (tlen t)) s b <-> may_drive t s b).
+Proof. intros t s b W. exact (emit_assign_may_drive t s b W). Qed.
+Print Assumptions C06_emit_assign_spec.
+Example C06_emit_assign_spec_ex :
+  let t := TCat [TPart (TSlice (TSig 0 8) 2 8) 2 3 2; TSwitch 2 [TSlice (TSig 1 4) 1 3; TSig 2 2]] in
+  wf_tgt t = true /\ tlen t = 5
+  /\ emit_assign t 0 5 = [AR 0 8 2 3; AR 0 8 4 3; AR 0 8 6 2; AR 1 4 1 2; AR 2 2 0 2].
+Proof. vm_compute. repeat split. Qed.
+
+(* For ALL targets: the computable form used by conflictb (and run by the harness) is the declarative spec *)
+Theorem C06_may_driveb_iff : forall t s b, may_driveb t s b = true <-> may_drive t s b.
+Proof. exact may_driveb_iff. Qed.
+Print Assumptions C06_may_driveb_iff.
+
+(* For ALL bit lists and connection tables: connect() — the final single-driver assertion every driver,
+   instance / read-port / buffer output and input port goes through — succeeds exactly when every bit is
+   connected for the first time (and then records all of them); a raised error names a bit of the new value
+   that is already connected (or listed twice in the value itself). *)
+Theorem C06_connect_spec : forall bits conns c',
+  connect bits conns = inl c' <->
+  (NoDup bits /\ (forall x, In x bits -> ~ In x conns) /\ c' = rev bits ++ conns).
+Proof. exact connect_spec. Qed.
+Print Assumptions C06_connect_spec.
+Theorem C06_connect_err : forall bits conns e,
+  connect bits conns = inr e ->
+  exists s b, e = ErrConnect s b /\ In (s, b) bits /\ (In (s, b) conns \/ ~ NoDup bits).
+Proof. exact connect_err. Qed.
+Print Assumptions C06_connect_err.
+Example C06_connect_ex :
+  connect [(0, 2); (0, 3)] [(0, 1); (0, 0)] = inl [(0, 3); (0, 2); (0, 1); (0, 0)]
+  /\ connect [(0, 1); (0, 2)] [(0, 1); (0, 0)] = inr (ErrConnect 0 1).
+Proof. vm_compute. split; reflexivity. Qed.
+
+(* PARTIAL (finite domain, by computation): on every design of the systematic family
+     (fan tree)   {slice of every range in 3 (module, domain) positions, 5 part-selects of the whole signal,
+                   an Instance-style output on every range}
+                  x {every target form (slice / part-select / Cat / array element / cast / whole-signal
+                     part-select) of every range x 3 modules x 3 domains, outputs under 3 modules}
+     (chain tree) {slices in 2 positions, outputs} x {the same 525 placements}
+     (ports)      every single placement x port direction None / Input / Output
+   the whole-design check raises DriverConflict iff some bit has two sources (conflictb: two different
+   (module, domain) pairs that may address it for some selector value, or logic and an output / input port).
+   Missing for the full statement: the unbounded induction over arbitrary trees and statement lists;
+   the differential run compares driver_table and conflictb with the real emitter on ~8k designs. *)
+Theorem C06_driver_check_iff_partial : forall d,
+  In d (family true placements_a [] ++ family false placements_b [] ++ family_ports) ->
+  (driver_table d <> None <-> conflictb d = true).
+Proof. exact driver_check_iff_family. Qed.
+Print Assumptions C06_driver_check_iff_partial.
+Example C06_driver_check_iff_partial_ex :
+  Z.of_nat (length (family true placements_a [] ++ family false placements_b [] ++ family_ports)) = 40950%Z
+  /\ driver_table (Design (tree true [PStmt 1 0 (TSlice (TSig 0 4) 0 2); PStmt 2 0 (TSlice (TSig 0 4) 1 3)]) [])
+     = Some (ErrModule 0 1)
+  /\ driver_table (Design (tree true [PStmt 1 0 (TSlice (TSig 0 4) 0 2); PStmt 2 1 (TSlice (TSig 0 4) 2 4)]) [])
+     = None.
+Proof. vm_compute. repeat split. Qed.
+
+(* "designs whose drivers are bit-disjoint are accepted" is FALSE of the DSL's early check (S2):
+   s.word_select(o1, 2) in comb and s[4:8] in another domain of the same module are bit-disjoint, the
+   whole-design check accepts them (third conjunct: same drivers in two submodules), Module._add_statement
+   raises SyntaxError on bit 4 because LHSMaskCollector takes Part => whole operand. *)
+Theorem C06_early_conflict_refuted :
+  early_conflict s2_stmts = Some (0, 4) /\ conflictb (Design (FMod s2_stmts []) []) = false
+  /\ driver_table (Design (FMod [] [FMod [(0, TPart (TSig 0 8) 1 2 2)] []; FMod [(1, TSlice (TSig 0 8) 4 8)] []]) []) = None.
+Proof. exact early_conflict_refuted. Qed.
+Print Assumptions C06_early_conflict_refuted.
+
+(* marginal: a zero-width target creates a bit-less sole driver, which emit_drivers widens to the whole
+   signal; with the signal declared an Input port this is a DriverConflict although no bit has two sources *)
+Theorem C06_zero_width_refuted :
+  let d := Design (FMod [(0, TSlice (TSig 0 4) 1 1)] []) [(0, 4, PIn)] in
+  driver_table d = Some (ErrConnect 0 0) /\ conflictb d = false.
+Proof. exact zero_width_refuted. Qed.
+Print Assumptions C06_zero_width_refuted.
